@@ -94,6 +94,11 @@ func evalExecBlock(vm *r.VM, execBlock *syntax.ExecBlock, params []r.Element) (r
 	defer vm.EndScope()
 
 	blockModule := vm.GetCurrentModule()
+	// the body of a redefined constructor of a predefined type (如何新建异常？) runs in a frame of
+	// the native module, which is not in the module graph: its handler blocks belong to that frame's module
+	if blockModule == nil && vm.GetCurrentCallFrame() != nil {
+		blockModule = vm.GetCurrentCallFrame().GetModule()
+	}
 	// 1.0 inject 此 value from callFrame's context (for method functions ONLY)
 	if vm.GetCurrentCallFrame() != nil && vm.GetCurrentCallFrame().IsFunctionCallFrame() {
 		thisValue := vm.GetThisValue()
